@@ -234,6 +234,19 @@ def r13_3(ctx: Ctx):
             ctx.check(ok, rid, drv.short, drv.loc(), 'OnEndIteration is delivered after all trips of the call',
                       'OnEndIteration is delivered inside the iteration loop (once per trip, not once per call)',
                       key=f'{rid}::{drv.short}::end-after-loop')
+        # every returning path reports: the OnEndIteration loop is passed after the last evaluation of the call
+        # (also on paths that make no evaluation: a call that does nothing still ends with the notification)
+        last_eval = max([idx[id(e)] for e in evals] or [-1])
+        end_loops = [e for e in evs if e.kind in ('iter', 'loopexit') and C.at_level(e, drv)
+                     and _loop_over_listeners(ctx, e.func, e.node)
+                     and any(isinstance(c, ast.Call) and isinstance(c.func, ast.Attribute) and
+                             c.func.attr == 'OnEndIteration' for c in ast.walk(e.node))]
+        ok_end = any(idx[id(e)] > last_eval for e in end_loops)
+        ctx.check(ok_end, rid, drv.short, drv.loc(evals[-1].node) if evals else drv.loc(),
+                  'every returning path of the driver passes the OnEndIteration loop after its last evaluation',
+                  f'a returning path of {drv.short} makes {len(evals)} evaluation(s) and ends without passing the '
+                  f'OnEndIteration loop: the trials of that call are never reported to the listeners',
+                  key=f'{rid}::{drv.short}::end-loop-on-every-path', detail={'path': p.describe(40)})
         for x in ends:
             a = _bound(ctx, 'OnEndIteration', x)
             lst_ok = len(a) >= 1 and isinstance(a[0], (TupleVal,)) or (len(a) >= 1 and _is_local_list(p, a[0]))
